@@ -182,7 +182,9 @@ def dataframe(ds, native=True):
                 df[c['n']] = pd.array(data[c['n']], dtype='Float64')
             elif c['t'] == 'Boolean':
                 df[c['n']] = pd.array(data[c['n']], dtype='boolean')
-            elif c['t'] == 'String':
+            else:
+                # every other type travels as text: an all-null column must stay an object column (pandas would infer float64, which
+                # pysdmx cannot turn into its date type)
                 df[c['n']] = pd.array(data[c['n']], dtype='object')
         return df
     return pd.DataFrame(data, columns=cols, dtype='object')
